@@ -22,6 +22,7 @@ import PeroVerif.Drv.C16
 import PeroVerif.Drv.C17
 import PeroVerif.Drv.C18
 import PeroVerif.Drv.C19
+import PeroVerif.Drv.C20
 open Lean Drv
 
 def dispatch (p : String) : Option Handler :=
@@ -45,6 +46,7 @@ def dispatch (p : String) : Option Handler :=
   | "C17" => some Drv.C17.handle
   | "C18" => some Drv.C18.handle
   | "C19" => some Drv.C19.handle
+  | "C20" => some Drv.C20.handle
   | _ => none
 
 def handleLine (line : String) : String :=
